@@ -916,7 +916,10 @@ def match_solutions(refs, lays, tol_rel, tol_dir, geom, what, extra_L=None, n_in
                 [(l["L"], l["T"], l["e"].tolist()) for l in lays][:6], geom, mark)
         j = cands[0][1]
         used.add(j)
-        require(_fresnel_close(u, lays[j], 1e-6 + 10 * t_dir),
+        # (a ray crossing a boundary at grazing incidence: the transmission coefficient is
+        # a ratio of cosines of size |e_z|, its rounding error is ~eps/e_z^2)
+        ez = max(min(abs(float(u["e"][2])), abs(float(u["r"][2]))), 1e-12)
+        require(_fresnel_close(u, lays[j], 1e-6 + 10 * t_dir + 64 * 2.2e-16 / ez ** 2),
                 "%s solution %d has Fresnel factors (%r, %r), its layered counterpart (%r, %r): transmission "
                 "through index-matched boundaries must be 1; %s", what, k, u["fs"], u["fp"],
                 lays[j]["fs"], lays[j]["fp"], geom)
@@ -1424,8 +1427,11 @@ def check_chain_case(case, rec):
     for idx, (s, st_) in enumerate(zip(sols, stats)):
         if st_["decided"]:
             L, T = float(s.path_length), float(s.tof)
-            require(abs(L - st_["L_ref"]) <= 1e-2 * st_["n_sub"] + 2e-5 * L and
-                    abs(T - st_["T_ref"]) <= (1e-2 * st_["n_sub"] + 2e-5 * L) * 2.0 / C + 2e-5 * T,
+            # near-vertical rays through gradient layers: documented beta_tolerance regime of the
+            # analytic sub-paths (length good to 2 (0.005/n)^2 ~ 1e-4 relative only)
+            nv = 1e-4 * L if math.hypot(b[0] - a[0], b[1] - a[1]) < 0.02 * abs(b[2] - a[2]) else 0.0
+            require(abs(L - st_["L_ref"]) <= 1e-2 * st_["n_sub"] + 2e-5 * L + nv and
+                    abs(T - st_["T_ref"]) <= (1e-2 * st_["n_sub"] + 2e-5 * L + nv) * 2.0 / C + 2e-5 * T,
                     "solution %d: path_length %r / tof %r, the rays of its layers add up to %r / %r; %s",
                     idx, L, T, st_["L_ref"], st_["T_ref"], geom)
     # Fermat: the reflection-free solution through uniform layers
